@@ -1,6 +1,6 @@
 SPECIFICATION Spec
 CONSTANTS
-  Patterns <- P8
+  Patterns <- PQ
   Ids = {"i1", "i2", "i3"}
   Haystacks <- ProbeSet
   KeepSets = {{"i1"}, {"i2", "i3"}}
